@@ -329,8 +329,18 @@ func CustomCase(r *rand.Rand, name string, o CustomOpts) *Case {
 				callables["fn:"+fn] = "conv." + fn
 				underlying = true
 				f := fmt.Sprintf("U%d", i)
-				sS.Fields = append(sS.Fields, F(f, Named(sid)), F(f+"L", Slice(Named(sid))))
-				tS.Fields = append(tS.Fields, F(f, Named(tid)), F(f+"L", Slice(Named(tid))))
+				switch r.Intn(3) {
+				case 0:
+					// one occurrence only: converted inline by the method that has the field
+					sS.Fields = append(sS.Fields, F(f, Named(sid)))
+					tS.Fields = append(tS.Fields, F(f, Named(tid)))
+				case 1:
+					sS.Fields = append(sS.Fields, F(f+"L", Slice(Named(sid))))
+					tS.Fields = append(tS.Fields, F(f+"L", Slice(Named(tid))))
+				default:
+					sS.Fields = append(sS.Fields, F(f, Named(sid)), F(f+"L", Slice(Named(sid))))
+					tS.Fields = append(tS.Fields, F(f, Named(tid)), F(f+"L", Slice(Named(tid))))
+				}
 			}
 		}
 		if strings.HasPrefix(kind, "map") || strings.HasPrefix(kind, "underlying") || kind == "basicErr" || kind == "srcMethodCtx" {
